@@ -1,4 +1,9 @@
-from driver import Unit, Inst
-import C01
-def units(tier): return [Unit('dbg', shim='dbg.cpp', ctors=True, redirect=[p for p in C01.plan('quick') if p[0]=='IP'][0][3], differential=False)]
-def instances(tier): return [Inst('dbg', 'h_c14_rel_IP', unwind=24, unwindset={'vp_buf.0': 50}, timeout=100)]
+import C05
+def units(tier): return C05.units(tier)
+def instances(tier):
+    out = []
+    for i in C05.instances(tier):
+        if 'pseudo_v4' in i.id or i.id == 'h_c05_sum_range[12]':
+            for fl in ([], ['--sat-solver', 'cadical'], ['--external-sat-solver', 'kissat']):
+                import copy; j = copy.copy(i); j.flags = fl; j.timeout = 200; out.append(j)
+    return out
